@@ -1,2 +1,90 @@
-(* C08 -- channel identity is unambiguous.  Statements only; proofs in Ident/*_proofs.v. *)
-From AG Require Import Base.Prelude Base.Res Base.Bytes Ident.Dispatch Ident.Names Ident.Maps.
+(* C08 -- channel identity is unambiguous: names, boards and detector elements biject.
+   This file only pins statements; proofs live in Ident/Names_proofs.v and Ident/Maps_proofs.v.
+   The tables and `match run_number` arms come from Gen/Boards.v, Gen/WireMaps.v, Gen/PadMaps.v, which
+   the translator regenerates from the current /repo on every run, so everything below is re-proved
+   against what the source says now. *)
+From AG Require Import Base.Prelude Base.Res Base.Bytes Ident.Dispatch Ident.Names Ident.Maps
+  Ident.Maps_proofs Gen.Boards Gen.WireMaps Gen.PadMaps.
+
+(* ------------------------------------------------------------------------------------------------ maps *)
+(* for EVERY run number: if a wire map is selected, (installed Alpha16 board, channel) -> wire is total,
+   injective and onto the TPC_ANODE_WIRES wires *)
+Theorem C08_wire_map_bijective : forall run id, wire_dispatch run = Some id ->
+  (forall b ch, In b (wire_boards (fst id)) -> ch < 32 ->
+     exists w, wire_position run b ch = Ok w /\ w < gen_TPC_ANODE_WIRES)
+  /\ (forall b ch b' ch', In b (wire_boards (fst id)) -> In b' (wire_boards (fst id)) -> ch < 32 -> ch' < 32 ->
+        wire_position run b ch = wire_position run b' ch' -> b = b' /\ ch = ch')
+  /\ (forall w, w < gen_TPC_ANODE_WIRES ->
+        exists b ch, In b (wire_boards (fst id)) /\ ch < 32 /\ wire_position run b ch = Ok w).
+Proof. exact wire_map_bijective_lemma. Qed.
+Print Assumptions C08_wire_map_bijective.
+
+(* for EVERY run number: if a PWB map is selected, 64 boards are installed and
+   (installed board, AFTER chip, pad channel) -> (pad column, pad row) is total, injective and onto *)
+Theorem C08_pad_map_bijective : forall run t, pwb_dispatch run = Some t ->
+  lenN (pwb_installed t) = gen_TPC_PWB_COLUMNS * gen_TPC_PWB_ROWS
+  /\ (forall b a ch, In b (pwb_installed t) -> In a gen_after_ids -> In ch pad_channels ->
+        exists c w, pad_position run b a ch = Ok (c, w) /\ c < gen_TPC_PAD_COLUMNS /\ w < gen_TPC_PAD_ROWS)
+  /\ (forall b a ch b' a' ch', In b (pwb_installed t) -> In a gen_after_ids -> In ch pad_channels ->
+        In b' (pwb_installed t) -> In a' gen_after_ids -> In ch' pad_channels ->
+        pad_position run b a ch = pad_position run b' a' ch' -> b = b' /\ a = a' /\ ch = ch')
+  /\ (forall c w, c < gen_TPC_PAD_COLUMNS -> w < gen_TPC_PAD_ROWS ->
+        exists b a ch, In b (pwb_installed t) /\ In a gen_after_ids /\ In ch pad_channels
+                       /\ pad_position run b a ch = Ok (c, w)).
+Proof. exact pad_map_bijective_lemma. Qed.
+Print Assumptions C08_pad_map_bijective.
+
+(* the sizes the property text names *)
+Theorem C08_sizes :
+  gen_TPC_ANODE_WIRES = 256 /\ gen_TPC_PADS = 18432 /\ gen_TPC_PAD_COLUMNS * gen_TPC_PAD_ROWS = gen_TPC_PADS
+  /\ gen_TPC_PWB_COLUMNS * gen_TPC_PWB_ROWS = 64 /\ gen_after_ids = [0; 1; 2; 3]
+  /\ (forall ch, In ch pad_channels <-> 1 <= ch <= 72).
+Proof. do 5 (split; [reflexivity|]). exact In_pad_channels. Qed.
+Print Assumptions C08_sizes.
+
+(* the simulation run number (u32::MAX) maps exactly like run 5000 *)
+Theorem C08_sim_like_5000 :
+  (forall b ch, wire_position sim_run b ch = wire_position 5000 b ch)
+  /\ (forall b a ch, pad_position sim_run b a ch = pad_position 5000 b a ch).
+Proof. exact sim_like_5000_lemma. Qed.
+Print Assumptions C08_sim_like_5000.
+
+(* run numbers before the first map give an error rather than a guess (thresholds computed from the arms) *)
+Theorem C08_early_runs_error : forall run, run <> sim_run ->
+  (run < wire_first_threshold -> forall b ch, exists k, wire_position run b ch = Err k)
+  /\ (run < pad_first_threshold -> forall b a ch, exists k, pad_position run b a ch = Err k).
+Proof. exact early_runs_error_lemma. Qed.
+Print Assumptions C08_early_runs_error.
+
+Theorem C08_no_catch_all_guess : forall arms, In arms [preamp_arms; channel_arms; pwb_arms] ->
+  forall b, In (PAny, b) arms -> b = None.
+Proof. exact no_catch_all_guess_lemma. Qed.
+Print Assumptions C08_no_catch_all_guess.
+
+(* ------------------------------------------------------------------------------------------- geometry *)
+(* phi(wire w) = wire_phi_num w * pi / TPC_ANODE_WIRES;  column c covers
+   [2c pi / TPC_PAD_COLUMNS, (2c+2) pi / TPC_PAD_COLUMNS): wire w lies in the interval of its column
+   (exact integers: both sides multiplied by the denominators) *)
+Theorem C08_column_geometry : forall w, w < gen_TPC_ANODE_WIRES ->
+  let c := wire_to_pad_column w in
+  c < gen_TPC_PAD_COLUMNS
+  /\ 2 * c * gen_TPC_ANODE_WIRES <= wire_phi_num w * gen_TPC_PAD_COLUMNS
+  /\ wire_phi_num w * gen_TPC_PAD_COLUMNS < (2 * c + 2) * gen_TPC_ANODE_WIRES.
+Proof. exact column_geometry_lemma. Qed.
+Print Assumptions C08_column_geometry.
+
+(* pad_column_to_wires c lists exactly the wires of column c, and its range stays inside the wire array *)
+Theorem C08_column_wires_inverse : forall c, c < gen_TPC_PAD_COLUMNS ->
+  pad_column_first c + gen_WIRES_PER_COLUMN <= gen_TPC_ANODE_WIRES
+  /\ forall w, w < gen_TPC_ANODE_WIRES -> (In w (pad_column_to_wires c) <-> wire_to_pad_column w = c).
+Proof. exact column_wires_inverse_lemma. Qed.
+Print Assumptions C08_column_wires_inverse.
+
+(* ---------------------------------------------------------------------------------------- non-vacuity *)
+Example C08_maps_nonvacuous :
+  wire_dispatch 5000 = Some (0, 0) /\ pwb_dispatch 5000 = Some 0 /\ pwb_dispatch 10418 = Some 1
+  /\ wire_dispatch 2940 = None /\ pwb_dispatch 4417 = None
+  /\ wire_first_threshold = 2941 /\ pad_first_threshold = 4418
+  /\ wire_position 5000 0 0 = Ok 4 /\ pad_position 5000 24 0 1 = Ok (5, 432)
+  /\ wire_to_pad_column 0 = 31 /\ pad_column_to_wires 31 = [0; 1; 2; 3; 4; 5; 6; 7].
+Proof. vm_compute. repeat split; reflexivity. Qed.
